@@ -79,6 +79,16 @@ def run(tier, wd):
             seen.add(key)
             k += 1
             groups.append({"rel": "single", "members": [{"si": si, "env": env, "argv": line}]})
+    # a literal -- as the value of an optional argument, once options were ended (on the line or by the spec)
+    for e_, lines_ in [(g.Seq(X_, g.Optional(Y_)), [["--", "x", "--"], ["--", "x"], ["x", "--", "--"], ["--", "--"]]),
+                       (g.Seq(g.End(), X_, g.Optional(Y_)), [["x", "--"], ["x"], ["--", "x", "--"]]),
+                       (g.Seq(g.Optional(A_), g.End(), g.Rep(X_), g.Optional(Y_)), [["-a", "x", "--"], ["x", "--", "y"]])]:
+        st = g.render(p, e_)
+        if st in [x["str"] for x in specs]:
+            continue
+        specs.append({"ast": e_, "str": st, "prog": 0})
+        for line in lines_:
+            groups.append({"rel": "single", "members": [{"si": len(specs) - 1, "env": [], "argv": line}]})
     for si, s in enumerate(specs):
         if s.get("extra"):
             lead = [x["a"] for x in g.walk(s["ast"]) if x["k"] == "opt"][:1]
